@@ -60,7 +60,7 @@ func main() {
 }
 
 func plan(tier string, seed int64) []kit.Batch {
-	n, budget := 40, 300
+	n, budget := 24, 300
 	reps := 1
 	if tier == "thorough" {
 		n, budget, reps = 250, 1500, 3
